@@ -1846,6 +1846,28 @@ fn remove_comment_header(comment: &str) -> &str {
     }
 }
 
+#[cfg(feature = "verif-hooks")]
+pub(crate) mod verif_local {
+    use super::*;
+
+    /// `UngroupedCommentCodeSlices::new(code)` collected: (is a comment, start, slice).
+    pub(crate) fn ungrouped_slices(code: &str) -> Vec<(bool, usize, String)> {
+        UngroupedCommentCodeSlices::new(code)
+            .map(|(kind, start, slice)| (kind == CodeCharKind::Comment, start, slice.to_owned()))
+            .collect()
+    }
+
+    /// `CommentReducer::new(comment)` collected.
+    pub(crate) fn comment_reducer(comment: &str) -> String {
+        CommentReducer::new(comment).collect()
+    }
+
+    /// `changed_comment_content(orig, new)`.
+    pub(crate) fn changed_comment_content(orig: &str, new: &str) -> bool {
+        super::changed_comment_content(orig, new)
+    }
+}
+
 #[cfg(test)]
 mod test {
     use super::*;
